@@ -262,6 +262,8 @@ def _multiplicity(rep, repo, f, loop, start, end, o1, o2):
         for diag in (False, True):
             for ordering in ("<", "=", ">"):
                 def base_atom(n, herm_val):
+                    if isinstance(n, ast.Call) and call_name(n) == "bool" and len(n.args) == 1:
+                        return eval_bool(n.args[0], lambda m: base_atom(m, herm_val))
                     if isinstance(n, ast.Name) and n.id == "hermitian":
                         return herm_val
                     if isinstance(n, ast.Compare) and len(n.ops) == 1:
